@@ -9,11 +9,11 @@ open DryocVerif DryocVerif.Model.Protected
 /-- tokens whose Rust entry point returns `Result` -/
 def isResultOp : Op → Bool
   | .lock | .unlock | .ro | .rw | .na | .fsl _ | .fsro _
-  | .newlocked | .genlocked | .newrolocked | .genrolocked => true
+  | .newlocked | .genlocked | .newrolocked | .genrolocked | .stacklock | .serde _ _ => true
   | _ => false
 
-theorem doLock_res (c : Cfg) (s : State) (i : Nat) (sl : Slot) (pm : PM) :
-    (doLock c s i sl pm).1 = .ok ∨ (doLock c s i sl pm).1 = .err := by
+theorem doLock_res (c : Cfg) (s : State) (i : Nat) (sl : Slot) (rc : LM × PM) (pm : PM) :
+    (doLock c s i sl rc pm).1 = .ok ∨ (doLock c s i sl rc pm).1 = .err := by
   unfold doLock; simp only []; split <;> simp
 
 theorem doNewLocked_res (c : Cfg) (s : State) (m : Mach) (v : PVec) (src : Option Bytes) (ro rnd : Bool) :
@@ -28,6 +28,28 @@ theorem doFromSlice_res (c : Cfg) (s : State) (n : Nat) (ro : Bool) :
     · simp
     · exact doNewLocked_res ..
   · exact doNewLocked_res ..
+
+theorem opStackLock_res (c : Cfg) (s : State) :
+    (opStackLock c s).1 = .ok ∨ (opStackLock c s).1 = .err ∨ (opStackLock c s).1 = .na := by
+  unfold opStackLock
+  split
+  · rcases doNewLocked_res c s (newBytes c s.m).1 (writeV (newBytes c s.m).2 (List.replicate c.n 0x5a)) none
+      false false with h | h
+    · exact Or.inl h
+    · exact Or.inr (Or.inl h)
+  · simp
+
+theorem opSerde_res (c : Cfg) (s : State) (json : Bool) (n : Nat) :
+    (opSerde c s json n).1 = .ok ∨ (opSerde c s json n).1 = .err := by
+  unfold opSerde
+  split
+  · split
+    · unfold doSerdeArrJson; simp only []
+      split
+      · split <;> simp
+      · simp
+    · exact doNewLocked_res ..
+  · exact doFromSlice_res ..
 
 theorem result_never_panics (c : Cfg) (s : State) (t : Tok) (h : isResultOp t.op = true) :
     (stepCore c s t).1 ≠ .panic := by
@@ -66,6 +88,9 @@ theorem result_never_panics (c : Cfg) (s : State) (t : Tok) (h : isResultOp t.op
   case genlocked => exact ne_of_or _ (doNewLocked_res ..)
   case newrolocked => exact ne_of_or _ (doNewLocked_res ..)
   case genrolocked => exact ne_of_or _ (doNewLocked_res ..)
+  case stacklock =>
+    rcases opStackLock_res c s with h1 | h1 | h1 <;> simp [h1]
+  case serde js n => exact ne_of_or _ (opSerde_res ..)
 
 /-! ### the `lock` token on a given live slot -/
 
@@ -84,14 +109,20 @@ def isUnlockedSt : St → Bool
   | .prot .unlocked _ => true
   | _ => false
 
+/-- the record `mlock()` starts from: `new_with`'s for a bare container, the region's own otherwise -/
+def recOfLock (o : Obj) : LM × PM :=
+  match o.st with
+  | .plain => recNew
+  | .prot _ _ => o.rcd
+
 theorem opLock_eq {c : Cfg} {s : State} {i : Nat} {sl : Slot} (hi : s.slots[i]? = some sl)
     (hg : sl.gone = false) (hu : isUnlockedSt sl.o.st = true) :
-    opLock c s i = doLock c s i sl (pmOf sl.o.st) := by
+    opLock c s i = doLock c s i sl (recOfLock sl.o) (pmOf sl.o.st) := by
   unfold opLock
   rw [withLive_eq hi hg]
   split
-  · rename_i h; simp [h, pmOf]
-  · rename_i pm h; simp [h, pmOf]
+  · rename_i h; simp [h, pmOf, recOfLock]
+  · rename_i pm h; simp [h, pmOf, recOfLock]
   · rename_i pm h; simp [h, isUnlockedSt] at hu
 
 /-- only `lock` ever consumes a slot with `err`; every other `err` leaves the slots as they were -/
@@ -144,17 +175,17 @@ theorem err_shape (c : Cfg) (s : State) (t : Tok) (h : (stepCore c s t).1 = .err
     · simp
     · intro sl l1 l2 hs hi hg
       have hget : s.slots[t.idx]? = some sl := by rw [hs, ← hi]; exact getElem?_split _ _ _
-      have hd : ∀ pm, (doLock c s t.idx sl pm).1 = .err → ∃ sl', s.slots[t.idx]? = some sl' ∧
-          sl'.gone = false ∧ (doLock c s t.idx sl pm).2.slots = s.slots.set t.idx { sl' with gone := true } := by
-        intro pm
+      have hd : ∀ rc pm, (doLock c s t.idx sl rc pm).1 = .err → ∃ sl', s.slots[t.idx]? = some sl' ∧
+          sl'.gone = false ∧ (doLock c s t.idx sl rc pm).2.slots = s.slots.set t.idx { sl' with gone := true } := by
+        intro rc pm
         unfold doLock; simp only []
-        by_cases hr : (lockV c s.m sl.o.v pm).2 = true
+        by_cases hr : (lockV c s.m sl.o.v rc).2 = true
         · simp [hr]
         · simp only [hr]
           intro _; exact ⟨sl, hget, hg, rfl⟩
       split
-      · exact hd _
-      · exact hd _
+      · exact hd _ _
+      · exact hd _ _
       · simp
   case unlock =>
     exfalso; revert h; unfold opUnlock; apply live _ _ _ (by simp); intro sl; split <;> simp
@@ -179,7 +210,7 @@ theorem err_shape (c : Cfg) (s : State) (t : Tok) (h : (stepCore c s t).1 = .err
       · simp
       · exact hc _
     · simp
-  case resize n =>
+  case resize n b =>
     exfalso; revert h; unfold opResize; apply live _ _ _ (by simp); intro sl
     split
     · simp
@@ -215,6 +246,41 @@ theorem err_shape (c : Cfg) (s : State) (t : Tok) (h : (stepCore c s t).1 = .err
       all_goals simp
   case wrap => simp at h
   case bad => simp at h
+  case zeroize =>
+    exfalso; revert h; unfold opZeroize; apply live _ _ _ (by simp); intro sl; split <;> simp
+  case clonefrom j =>
+    exfalso; revert h; unfold opCloneFrom
+    split
+    · simp
+    split
+    · split
+      · simp
+      split
+      · split
+        · simp
+        · simp
+        · split <;> simp
+      · split <;> simp
+    · simp
+  case panicdrop =>
+    exfalso; revert h; unfold opDrop; apply live _ _ _ (by simp); intro sl; simp
+  case stacklock =>
+    left
+    revert h; unfold opStackLock
+    split
+    · exact newl _ _ _ _ _
+    · simp
+  case serde js n =>
+    left
+    revert h; unfold opSerde
+    split
+    · split
+      · unfold doSerdeArrJson; simp only []
+        split
+        · split <;> simp
+        · simp
+      · exact newl _ _ _ _ _
+    · exact froms _ _
 
 /-! ### a refused lock request -/
 
@@ -222,21 +288,22 @@ theorem dryocMlock_refused {c : Cfg} {m : Mach} {a l : Nat} (hl : l ≠ 0) (hr :
     dryocMlock c m a l = (failedLock c m m.k a l, false) := by
   unfold dryocMlock; simp [hl, hr]
 
-theorem lockV_refused {c : Cfg} {m : Mach} {v : PVec} (pm : PM) (hl : v.len ≠ 0)
+theorem lockV_refused {c : Cfg} {m : Mach} {v : PVec} (pm : LM × PM) (hl : v.len ≠ 0)
     (hr : m.oracle (m.cnt + 1) = false) :
-    lockV c m v pm = (protDrop c (failedLock c m m.k (ptr c v) v.len) v .unlocked pm, false) := by
+    lockV c m v pm = (protDrop c (failedLock c m m.k (ptr c v) v.len) v pm.1 pm.2, false) := by
   unfold lockV; simp [dryocMlock_refused hl hr]
 
 /-- the drop of an (internally) unlocked region never touches a lock flag -/
 theorem protDrop_unlocked_locked (c : Cfg) (m : Mach) (v : PVec) (pm : PM) :
     (protDrop c m v .unlocked pm).k.locked = m.k.locked := by
-  unfold protDrop plainDrop vecDrop
-  by_cases h1 : pm = .rw <;> by_cases h2 : (zeroizeV v).cap = 0 <;> simp [h1, h2, dryocMprotect]
+  have hz : (zeroizeV (zeroizeV v)).cap = v.cap := rfl
+  unfold protDrop protZeroize protAtWipe plainDrop vecDrop
+  by_cases h1 : pm = .rw <;> by_cases h2 : v.cap = 0 <;> simp [h1, h2, hz, dryocMprotect]
 
 theorem protDrop_unlocked_rel (c : Cfg) (hw : c.wipe = true) (m : Mach) (v : PVec) (pm : PM) :
     (protDrop c m v .unlocked pm).rel = m.rel ++ (if v.cap = 0 then [] else [(v.cap, 0)]) := by
-  have hz : (zeroizeV v).cap = v.cap := rfl
-  unfold protDrop plainDrop vecDrop
+  have hz : (zeroizeV (zeroizeV v)).cap = v.cap := rfl
+  unfold protDrop protZeroize protAtWipe plainDrop vecDrop
   by_cases h1 : pm = .rw <;> by_cases h2 : v.cap = 0 <;>
     simp [h1, h2, hz, dealloc_rel, hw, nonzero_wipe]
 
